@@ -18,7 +18,33 @@ type Ext struct {
 	RM [][3]any `json:"rm,omitempty"` // [pattern, string, bool]
 }
 
-var fracRe = regexp.MustCompile(`[0-9]+\.[0-9]+`)
+var (
+	reCache      = map[string]*regexp.Regexp{}
+	compileCache = map[string]bool{}
+)
+
+func cachedRe(p string) *regexp.Regexp {
+	if r, ok := reCache[p]; ok {
+		return r
+	}
+	r := regexp.MustCompile(p)
+	reCache[p] = r
+	return r
+}
+
+func compiles(s string) bool {
+	if ok, seen := compileCache[s]; seen {
+		return ok
+	}
+	_, err := regexp.Compile(s)
+	if len(compileCache) > 100000 {
+		compileCache = map[string]bool{}
+	}
+	compileCache[s] = err == nil
+	return err == nil
+}
+
+func isDigit(b byte) bool { return b >= '0' && b <= '9' }
 
 func runeString(n int64) string {
 	if n < 0 || n > math.MaxInt32 {
@@ -63,7 +89,14 @@ func MkExt(t *Ty, vs ...*Val) *Ext {
 		candidateStrings(v, strs, floats)
 	}
 	var pats []string
+	hasFloat, hasPattern := false, false
 	t.WalkTy(func(s *Ty) {
+		if s.T == "float" {
+			hasFloat = true
+		}
+		if s.T == "pattern" {
+			hasPattern = true
+		}
 		if s.Pat != nil {
 			pats = append(pats, *s.Pat)
 		}
@@ -89,7 +122,7 @@ func MkExt(t *Ty, vs ...*Val) *Ext {
 	sort.Strings(keys)
 	pf := map[string]bool{}
 	addPF := func(s string) {
-		if pf[s] {
+		if pf[s] || !hasFloat {
 			return
 		}
 		pf[s] = true
@@ -103,17 +136,29 @@ func MkExt(t *Ty, vs ...*Val) *Ext {
 	for _, s := range keys {
 		addPF(s)
 		// captures of the unit grammar: every digits.digits substring
-		for i := 0; i < len(s); i++ {
-			for j := i + 3; j <= len(s); j++ {
-				if sub := s[i:j]; fracRe.FindString(sub) == sub {
-					addPF(sub)
-				}
+		for d := 1; d+1 < len(s); d++ {
+			if s[d] != '.' || !isDigit(s[d-1]) || !isDigit(s[d+1]) {
+				continue
+			}
+			lo := d
+			for lo > 0 && isDigit(s[lo-1]) {
+				lo--
+			}
+			hi := d + 1
+			for hi < len(s) && isDigit(s[hi]) {
+				hi++
+			}
+			// the integer part of a capture starts where the digit run starts (unit names
+			// contain no digits in generated definitions); the fraction may be any prefix
+			for j := d + 2; j <= hi; j++ {
+				addPF(s[lo:j])
 			}
 		}
-		_, err := regexp.Compile(s)
-		e.RC = append(e.RC, [2]any{s, err == nil})
+		if hasPattern {
+			e.RC = append(e.RC, [2]any{s, compiles(s)})
+		}
 		for _, p := range pats {
-			e.RM = append(e.RM, [3]any{p, s, regexp.MustCompile(p).MatchString(s)})
+			e.RM = append(e.RM, [3]any{p, s, cachedRe(p).MatchString(s)})
 		}
 	}
 	fk := make([]uint64, 0, len(floats))
